@@ -410,6 +410,15 @@ func runC11(r *Run) {
 			}, cf)
 		}
 	}
+	// multi-block streams with MIXED costs into smaller caches: each region is written as several 4 MiB
+	// blocks, so "region closed by the first entry that does not fit" must survive block boundaries
+	if r.Shard == 1%r.NShards {
+		blob := strings.Repeat("y", 600<<10)
+		for j, target := range []int{40, 25, 13, 7} {
+			cfg := c11Cfg{Types: "int->string 600 KiB, cost 1..4 from the value (multi-block regions)", MaxSize: 80, NewSize: target, Target: fmt.Sprintf("%d of 80", target), Costs: "mixed", TTLs: "none", Workload: "frequency", Ops: 600, ElapsedS: 0, ElapsedCl: "0"}
+			c11RoundTrip[int, string](r, 910000+j, cfg, func(i int) int { return i }, func(i int, rg *rand.Rand) string { return blob[:len(blob)-(i%4)] }, func(v string) int64 { return int64(len(v)%4) + 1 })
+		}
+	}
 	// multi-block streams (>= 3 blocks of 4 MiB): 14 values of 1 MiB
 	if r.Shard == 0 {
 		blob := strings.Repeat("x", 1<<20)
